@@ -8,6 +8,7 @@ import (
 	"fmt"
 	"runtime"
 	"sync"
+	"sync/atomic"
 )
 
 // Interface is a type that performs an operation on itself, returning any error.
@@ -22,6 +23,7 @@ type Processor struct {
 	stop    chan struct{}
 	work    chan struct{}
 	threads int
+	exited  int32
 	wg      *sync.WaitGroup
 }
 
@@ -57,7 +59,10 @@ func NewProcessor(queue chan Operator, buffer int, threads int) (p *Processor) {
 				}
 				p.work <- struct{}{}
 				verifStep("worker.token_returned", id)
-				if len(p.work) == p.threads {
+				// The last worker to exit closes out. Counting returned tokens
+				// is not enough: a worker that has not started yet has not taken
+				// its token, and two exiting workers may both see all tokens back.
+				if atomic.AddInt32(&p.exited, 1) == int32(p.threads) {
 					close(p.out)
 				}
 				p.wg.Done()
